@@ -273,6 +273,14 @@ func getAffinityKeysFromMessage(
 	locator string,
 	msg interface{},
 ) (affinityKeys []string, err error) {
+	// Reflection panics on some legal values (e.g. a promoted field reached through
+	// a nil embedded struct pointer); report those as errors like any other
+	// unresolvable path.
+	defer func() {
+		if r := recover(); r != nil {
+			affinityKeys, err = nil, fmt.Errorf("cannot retrieve affinity key at %q: %v", locator, r)
+		}
+	}()
 	names := strings.Split(locator, ".")
 	if len(names) == 0 {
 		return nil, fmt.Errorf("empty affinityKey locator")
